@@ -29,7 +29,7 @@ COMPONENTS = {
     "real": ["canopen.emcy (EmcyConsumer, EmcyProducer, EmcyError, EMCY_STRUCT)", "RemoteNode/LocalNode wiring", "canopen.Network"],
     "stub": ["CAN backend (SimBus)", "can.Notifier", "threading.Condition and time inside canopen.emcy (virtual clock)"],
 }
-PROBES = ["reset-frame", "reset-frame-xxFF", "producer-roundtrip", "callback", "consumer-reset", "wait-returned", "wait-none", "wait-filtered", "wait-filter-zero"]
+PROBES = ["reset-frame", "reset-frame-xxFF", "producer-roundtrip", "callback", "consumer-reset", "wait-returned", "wait-none", "wait-filtered", "wait-filter-zero", "waiters-served"]
 
 CLASSES = ((0x0000, 0xFF00, "Error Reset / No Error"), (0x1000, 0xFF00, "Generic Error"), (0x2000, 0xF000, "Current"),
            (0x3000, 0xF000, "Voltage"), (0x4000, 0xF000, "Temperature"), (0x5000, 0xFF00, "Device Hardware"),
@@ -290,10 +290,60 @@ def _mode_t_observation(ctx):
     ctx.cover(("mode-T-observation", filt is None, len(codes), r is not None))
 
 
+def _mode_t_waiters(ctx):
+    """Mode T, judged: 1..3 caller threads are inside wait() when ONE matching frame
+    arrives (nothing else arrives during the waits).  Every one of them is 'a waiting
+    caller' and must be handed that entry; with a single delivery the outcome does not
+    depend on the schedule, so the unchanged library must satisfy it under every one."""
+    ctx.enable_threads((0, 4)[ctx.choice(2, "policy")])
+    if ctx.choice(2, "stalls"):
+        ctx.stall = lambda: (0, 0, 300 * US, 3 * MS)[ctx.choice(4, "stall")]
+        ctx.fault("slow-task")
+    w = W(ctx)
+    cons = w.r.emcy
+    code = (0x8110, 0x1000, 0x0000, 0x5000, 0xFF01)[ctx.choice(5, "code")]
+    nwait = 1 + ctx.choice(3, "nwait")
+    filts = [(None, code)[ctx.choice(2, "filter")] for _ in range(nwait)]
+    results = [None] * nwait
+
+    t_begin = ctx.now
+
+    def producer():
+        ctx.sleep(0.005)        # all waiters are blocked in wait() by then (virtual time only advances when nobody can run)
+        w.raw.send(0x80 + w.nid, bytes([code & 0xFF, code >> 8, 1, 9, 8, 7, 6, 5]))
+
+    def waiter(i):
+        def body():
+            results[i] = call(cons.wait, filts[i], 0.2) + (ctx.now,)
+        return body
+    ctx.spawn("producer", producer)
+    for i in range(nwait):
+        ctx.spawn("waiter%d" % i, waiter(i))
+    ctx.run_tasks()
+    for t in ctx.tasks:
+        if t.exc is not None:
+            raise t.exc
+    for i, (res, exc, t_done) in enumerate(results):
+        what = "Mode T: %d callers in wait(), caller %d with filter %s, one frame with code 0x%04X after 5 ms" % (nwait, i, "none" if filts[i] is None else "0x%04X" % filts[i], code)
+        if exc is not None:
+            ctx.violation("C16/wait-raised/%s@%s" % (type(exc).__name__, site(exc)), "%s: wait() raised %r" % (what, exc))
+        if res is None:
+            ctx.violation("C16/waiting-caller-not-served/%s" % ("one-waiter" if nwait == 1 else "several-waiters"), "%s: wait() returned None after its time-out" % what)
+        if res.code != code or res.register != 1 or bytes(res.data) != bytes([9, 8, 7, 6, 5]):
+            ctx.violation("C16/wait-wrong-entry/mode-T", "%s: got %r" % (what, _entry_tuple(res)))
+        # handed over when the frame arrives (5 ms after the start), not when the caller's own time-out ends 200 ms later
+        if t_done - t_begin > 100 * MS:
+            ctx.violation("C16/waiting-caller-served-late/%s" % ("one-waiter" if nwait == 1 else "several-waiters"), "%s: wait() came back after %.1f ms" % (what, (t_done - t_begin) / MS))
+    ctx.probe("waiters-served", nwait)
+    ctx.cover(("mode-T-waiters", nwait, tuple(f is None for f in filts)))
+
+
 def scenario(ctx):
     mode = ctx.choice(4, "mode")
     blk = ctx.choice(16, "blk")
     if mode == 3:
+        if ctx.choice(2, "tkind"):
+            return _mode_t_waiters(ctx)
         return _mode_t_observation(ctx)
     if mode == 1:
         # description table: 4096 codes per run
